@@ -10,9 +10,9 @@ struct sim_probe {
         void *fn;               // 0
         uint64_t args[6];       // 8
         uint64_t nstack;        // 56
-        uint64_t stack_args[16]; // 64
-        uint64_t flags;         // 192: bit0 scrub stack+vector regs before, bit1 dump stack after
-        uint64_t canary[6];     // 200: rbx rbp r12 r13 r14 r15
+        uint64_t stack_args[32]; // 64
+        uint64_t flags;         // 320: bit0 scrub stack+vector regs before, bit1 dump stack after
+        uint64_t canary[6];     // 328: rbx rbp r12 r13 r14 r15
 };
 
 struct tramp_out {
@@ -31,8 +31,8 @@ extern uint64_t g_tramp_saved_rsp;
 uint64_t sim_call(struct sim_probe *p);
 }
 
-static_assert(offsetof(sim_probe, flags) == 192, "probe layout");
-static_assert(offsetof(sim_probe, canary) == 200, "probe layout");
+static_assert(offsetof(sim_probe, flags) == 320, "probe layout");
+static_assert(offsetof(sim_probe, canary) == 328, "probe layout");
 static_assert(offsetof(tramp_out, rflags) == 128, "out layout");
 static_assert(offsetof(tramp_out, rsp_call) == 144, "out layout");
 static_assert(offsetof(tramp_out, k) == 152, "out layout");
